@@ -133,6 +133,28 @@ def listMapM {α β} (f : α → R β) : List α → R (List β)
       | .error e => .error e
       | .ok ys => .ok (y :: ys)
 
+/-- `b[0] |= m` on a bytearray: IndexError when empty; the result stays an octet for an octet mask -/
+def setFirstOr (b : List UInt8) (m : Int) : R (List UInt8) :=
+  match b with
+  | [] => .error .indexError
+  | x :: xs => if 0 ≤ m ∧ m < 256 then .ok (UInt8.ofNat (x.toNat ||| m.toNat) :: xs) else .error .valueError
+
+/-- `ord(b)` for a bytes object: TypeError unless its length is 1 -/
+def ord1 (b : List UInt8) : R Int :=
+  match b with
+  | [x] => .ok (x.toNat : Int)
+  | _ => .error .typeError
+
+/-- `d.get(key)` on a dict with bytes keys, kept as an insertion-ordered association list -/
+def assocGet {β} : List (List UInt8 × β) → List UInt8 → Option β
+  | [], _ => none
+  | (k, v) :: rest, key => if k = key then some v else assocGet rest key
+
+/-- what a loop body did: `return r` or fell through to the next iteration with state `s` -/
+inductive Flow (ρ σ : Type) where
+  | ret (r : ρ)
+  | next (s : σ)
+
 /-- a decoded header field: name, value, and whether its class is `NeverIndexedHeaderTuple` -/
 abbrev Header := List UInt8 × List UInt8 × Bool
 
